@@ -602,6 +602,17 @@ func (ex *Exec) evalAddr(e *Expr, env *Env) Val {
 			if p, ok := env.fr.params["&"+e.Name]; ok {
 				return p
 			}
+			if cur, ord, isParam, ok := ex.renamedTo(env.fr.fn, e.Name); ok && !isParam {
+				if cs := env.fr.cellsBy[cur]; len(cs) > 0 {
+					if ord < len(cs) {
+						return CellPtr{cs[ord]}
+					}
+					return CellPtr{cs[len(cs)-1]}
+				}
+				if p, ok := env.fr.params["&"+cur]; ok {
+					return p
+				}
+			}
 		}
 	}
 	unsup("modifies: %s is not a location", e)
